@@ -169,7 +169,6 @@ func port0(port string) string {
 	return port
 }
 
-
 // extremeTrees: the shapes at the edge of what a radix tree over host bytes can be -- maximal fan-out below one
 // node and at the root (every byte that can start / end a host), maximal depth (a node boundary at every byte of
 // a 253-byte host, with and without the trailing full stop) -- each with probes that present EVERY byte value at
